@@ -772,6 +772,9 @@ package gtfs
 //@   loop 2 invariant [idless-on-heap] forall k int :: 0 <= k && k < len(vehiclesWithNoID) ==> vehiclesWithNoID[k] != nil && fresh(vehiclesWithNoID[k])
 //@   loop 2 invariant [idless-links] forall t TripID :: has(tripIDToVehicleWithNoID, t) ==> has(tripsById, t) && tripIDToVehicleWithNoID[t] != nil && fresh(tripIDToVehicleWithNoID[t])
 //@   loop 2 invariant [trips-keyed-by-own-id] forall t TripID :: has(tripsById, t) ==> tripsById[t].ID == t
+//@   loop 2 step [association-by-vehicle-id-is-recorded-both-ways] trip#*Trip != nil && vehicle != nil && vehicle.ID != nil ==> has(tripIDToVehicleID, trip#*Trip.ID) && tripIDToVehicleID[trip#*Trip.ID] == *vehicle.ID && has(vehicleIDToTripID, *vehicle.ID) && vehicleIDToTripID[*vehicle.ID] == trip#*Trip.ID
+//@   loop 2 step [association-with-an-idless-vehicle-is-recorded] trip#*Trip != nil && vehicle != nil && vehicle.ID == nil ==> has(tripIDToVehicleWithNoID, trip#*Trip.ID) && tripIDToVehicleWithNoID[trip#*Trip.ID] == vehicle
+//@   loop 2 step [no-association-no-record] (trip#*Trip == nil || vehicle == nil) ==> (forall t TripID :: has(tripIDToVehicleID, t) == athead(2, has(tripIDToVehicleID, t)) && has(tripIDToVehicleWithNoID, t) == athead(2, has(tripIDToVehicleWithNoID, t)))
 //@   loop 2 invariant [links-unresolved-until-the-end] (forall t TripID :: has(tripsById, t) ==> tripsById[t].Vehicle == nil) && (forall v VehicleID :: has(vehiclesByID, v) ==> vehiclesByID[v].Trip == nil)
 //@   loop 3 invariant [ctx] opts != nil && extOK(opts.Extension) && feedMessage != nil && fresh(result.Alerts) && tripsById != nil && fresh(tripsById) && len(result.Trips) == 0 && cap(result.Trips) == 0 && len(result.Vehicles) == 0 && cap(result.Vehicles) == 0
 //@   loop 3 invariant [trips-on-heap] forall t TripID :: has(tripsById, t) ==> tripsById[t] != nil && fresh(tripsById[t])
